@@ -1,4 +1,5 @@
 import CifModel.Lemmas.ParseCBStartOnly
+import CifModel.Lemmas.ParseCBEventsAll
 import CifModel.Props.C15Layout
 /-
   Property C15 — WHICH callbacks are delivered, as a formula over the document (Spec/TraversalEvents.lean), for handler programs that
@@ -39,6 +40,31 @@ theorem C15_start_only_callbacks_layout (p : Prog) (hp : StartOnly p) (storing :
   rw [← e1]
   exact List.filter_eq_self.mpr (fun e he => hno e (hsub.subset he))
 
+/-- **The delivered callbacks and the return value, as a formula — EVERY program.**  For every well-formed duplicate-free document,
+    every handler program (any callback may answer CONTINUE, SKIP_CURRENT, SKIP_SIBLINGS, END or an error code) and both modes: the
+    handler, data-name and keyword callbacks of the parse are EXACTLY `(gDoc p storing d).1`, in that order, and cif_parse returns
+    `(gDoc p storing d).2` (Spec/TraversalEventsAll.lean: the document walked in document order, the only state being the number of
+    handler callbacks delivered; per construct which callbacks a CONTINUE / SKIP_CURRENT / SKIP_SIBLINGS / stopping answer leaves
+    out).  Together with `C15_stop_semantics_store` (the store) this says in closed form what a parse under any program delivers,
+    returns and stores. -/
+theorem C15_callbacks_formula (p : Prog) (storing : Bool) (norm : Str → Str) (d : Doc) (hwn : wfDocN norm d = true) :
+    (parseCB p storing (tokensOf d)).1 = (gDoc p storing d).1 ∧ (parseCB p storing (tokensOf d)).2.1 = (gDoc p storing d).2 := by
+  rw [C15_stored_is_structural_any p storing norm d hwn]
+  exact xDoc_g p storing d (wfDocN_wf hwn)
+
+/-- … with any layout in front of the tokens -/
+theorem C15_callbacks_formula_layout (p : Prog) (storing : Bool) (norm : Str → Str) (d : Doc) (hwn : wfDocN norm d = true)
+    (toks : List Tok) (h : SkelL (tokensOf d) toks) :
+    C15_structOf (parseCB p storing toks).1 = (gDoc p storing d).1 ∧ (parseCB p storing toks).2.1 = (gDoc p storing d).2 := by
+  obtain ⟨a, _, c⟩ := C15_layout_independent p storing (tokensOf d) toks h
+  obtain ⟨e1, e2⟩ := C15_callbacks_formula p storing norm d hwn
+  rw [a, c, e2]
+  refine ⟨?_, rfl⟩
+  have hsub := C15_events_sublist p storing norm d hwn
+  have hno := List.filter_eq_self.mp (C15_docEvents_nows storing d)
+  rw [← e1]
+  exact List.filter_eq_self.mpr (fun e he => hno e (hsub.subset he))
+
 -- ---- non-vacuity / sanity -----------------------------------------------------------------------------------------------------
 
 /-- a program that answers `r` at handler invocation `k` if that is a start callback, CONTINUE otherwise -/
@@ -72,5 +98,15 @@ example : ((evDoc (C15_startDev 7 SKIP_SIBLINGS) true C15_demo).map C15_kind).co
 example : ((evDoc (C15_startDev 6 END) true C15_demo).map C15_kind).getLast? = some 6 := by decide +kernel
 -- all continue: the formula is `docEvents`
 example : (evDoc allContP true C15_demo).map C15_kind = (docEvents true C15_demo).map C15_kind := by decide +kernel
+
+-- every program: an item of the second packet answers SKIP_SIBLINGS (invocation 13): no packet_end for that packet, loop_end delivered
+example : (gDoc (C15_dev1 13 SKIP_SIBLINGS) true C15_demo).1.map C15_kind
+    = [0, 2, 11, 10, 4, 11, 10, 5, 12, 11, 11, 6, 8, 10, 10, 9, 8, 10, 10, 7, 3, 1].take 19 ++ [7, 3, 1] := by decide +kernel
+-- frame_end (invocation 5) answers the error code 7: last callback, returned
+example : ((gDoc (C15_dev1 5 7) true C15_demo).1.map C15_kind).getLast? = some 5 ∧ (gDoc (C15_dev1 5 7) true C15_demo).2 = 7 := by
+  decide +kernel
+-- all continue: the formula is `docEvents`, result CIF_OK
+example : (gDoc allContP true C15_demo).1.map C15_kind = (docEvents true C15_demo).map C15_kind ∧ (gDoc allContP true C15_demo).2 = 0 := by
+  decide +kernel
 
 end CifModel
